@@ -342,6 +342,16 @@ func c07WaitGroup(c *Check, P string, r *GCRoles) {
 				c.Report(Dominates(Cl, s, w), P+".O8", "SIGNAL-BEFORE-WAIT", Cl, w.Pos(), "Wait", "the closing signal is raised before Close starts waiting (the waited-for goroutines can see it)")
 			}
 		}
+		// the persisted log is dropped only after every subscription goroutine ended: a replay in progress indexes it under the subscribers lock only
+		for _, st := range FieldStores(Cl, r.Persisted) {
+			ok := false
+			for _, w := range waits {
+				if Dominates(Cl, w, st) {
+					ok = true
+				}
+			}
+			c.Report(ok, P+".O6", "RESET-AFTER-WAIT", Cl, st.Pos(), "reset of the persisted messages", "Close replaces the persisted-message map only after it waited for all subscription goroutines (a replay still running reads the log by index without the persisted-messages lock)")
+		}
 	}
 }
 
@@ -409,6 +419,13 @@ func c07ClosedChecks(c *Check, P string, r *GCRoles) {
 }
 
 func c07Persisted(c *Check, P string, r *GCRoles) {
+	c07PersistedGuard(c, P+".O6", r)
+	c07PersistedRest(c, P, r)
+}
+
+// c07PersistedGuard: every access to the persisted-message map happens under
+// its lock (or under the subscribers write lock). Shared with C11.
+func c07PersistedGuard(c *Check, id string, r *GCRoles) {
 	n := 0
 	for _, a := range r.LA.Accesses(r.Persisted) {
 		fn := a.Ins.Parent()
@@ -424,10 +441,13 @@ func c07Persisted(c *Check, P string, r *GCRoles) {
 			_, p := held[r.idPersist]
 			ok = p || held[r.idSubs] == 'W'
 		}
-		c.Report(ok, P+".O6", "GUARDED-BY/persisted", fn, a.Ins.Pos(), a.What+" of persisted messages",
+		c.Report(ok, id, "GUARDED-BY/persisted", fn, a.Ins.Pos(), a.What+" of persisted messages",
 			"the persisted-message map is written under its write lock and read under its lock (or under the subscribers write lock)", "held: "+held.String())
 	}
-	c.Floor(P+".O6", "accesses to the persisted-message map", n, 6)
+	c.Floor(id, "accesses to the persisted-message map", n, 6)
+}
+
+func c07PersistedRest(c *Check, P string, r *GCRoles) {
 	// the subscriber map: reads under the subscribers lock (any mode), writes under its write mode
 	ns := 0
 	for _, a := range r.LA.Accesses(r.Subs) {
